@@ -6,6 +6,8 @@ from .progen import Program
 KINDS = ['vector', 'string', 'deque', 'list', 'set']
 
 EXCLUSIONS = {
+    'no-nested-input-branches': 'conditions on the input variable are not nested in each other [finding '
+                                'nested-condition-boundary-assumed: inside if (x < 4) the inner if (x < 1) is evaluated with x == 3]',
     'set-insert-fresh': 'every value inserted into a std::set is fresh (taken from a program-wide counter), never an '
                         'element that may already be present [finding set-insert-existing]',
 }
@@ -53,6 +55,7 @@ class Gen:
         self.b = B()
         self.n = 0
         self.feats = {}
+        self.in_input_branch = 0
 
     def feat(self, f):
         self.feats[f] = self.feats.get(f, 0) + 1
@@ -96,6 +99,16 @@ class Gen:
         conts.append((name, kind))
 
     def stmt(self, indent, conts, depth, in_loop):
+        before = len(self.b.plain)
+        self.stmt0(indent, conts, depth, in_loop)
+        # isolate the effect of each operation: read the size of a container right after a statement that used it
+        if conts and len(self.b.plain) == before + 1 and self.r.random() < 0.5:
+            line = self.b.plain[-1]
+            used = [c for c in conts if c[1] != 'array' and (c[0] + '.') in line or (c[0] + ' ') in line]
+            if used:
+                self.b.line(indent, ['sink += (long)', C(self.r.choice(used)[0]), '.size();'])
+
+    def stmt0(self, indent, conts, depth, in_loop):
         r = self.r
         if not conts or r.random() < 0.12:
             self.declare(indent, conts)
@@ -136,10 +149,12 @@ class Gen:
         if kind in ('deque', 'list'):
             ops += ['push-front', 'pop-front']
         if kind == 'string':
-            ops += ['append', 'append']
+            ops += ['append'] * 6
         op = r.choice(ops)
         if depth >= 2 and op in ('branch-size', 'branch-input', 'loop-push'):
             op = 'read'
+        if op == 'branch-input' and self.in_input_branch:
+            op = 'read'     # exclusion no-nested-input-branches
         if in_loop and op == 'loop-push':
             op = 'push'
         self.feat(op)
@@ -246,12 +261,14 @@ class Gen:
             b.line(indent, ['}'])
         elif op == 'branch-input':
             b.line(indent, ['if (x %s %d) {' % (r.choice(['<', '>', '==', '!=']), r.randint(0, 4))])
+            self.in_input_branch += 1
             for _ in range(r.randint(1, 3)):
                 self.stmt(indent + 1, list(conts), depth + 1, in_loop)
             if r.random() < 0.4:
                 b.line(indent, ['} else {'])
                 for _ in range(r.randint(1, 2)):
                     self.stmt(indent + 1, list(conts), depth + 1, in_loop)
+            self.in_input_branch -= 1
             b.line(indent, ['}'])
         elif op == 'loop-push':
             iv = self.nv('i')
